@@ -9,8 +9,9 @@ Small-scope enumeration of ALL statements of a nested exception-handling grammar
                                        raise ExceptionGroup([EA, EC]) / bare raise / return / break / continue /
                                        call of a raising plain-Python helper / nested T followed by LG(k)
 
-with at most N non-empty actions (a nested T counts as one) and nesting <= 2 (quick N=2; thorough N=3 with a
-reduced action set); try statements whose try body is empty (all handlers dead) are left out unless an else
+with at most N non-empty actions (a nested T counts as one) and nesting <= 2 (quick N=2; thorough adds N=3 over the forms try/except, try/except/else,
+try/except/finally, try/finally, except*, suppressing with and the actions raise EA / EC, bare raise, return: 3 032 more
+statements, 8 761 in total); try statements whose try body is empty (all handlers dead) are left out unless an else
 clause carries the action; plus the complete product of "bare raise (or return) in the finally of a try statement
 nested inside an except handler" (outer except EA / except EA as ex; inner try/finally, try/except/finally,
 try/except/else/finally; inner body raising nothing / same / subclass / other class / helper / group).
@@ -30,7 +31,8 @@ TECHNIQUE = 'exhaustive nested try/except/else/finally/with/except* statement gr
 LEVEL_TEXT = ('Every statement of the grammar try/except[/as][/bare except][/else][/finally], try/finally, with (suppressing or '
               'not, __exit__ raising or not), try/except* (one or two clauses) whose blocks log and then raise (matching, '
               'subclass, non-matching, from-cause, from-None, ExceptionGroup), re-raise, return, break, continue, call a raising '
-              'helper or nest another such statement - with <= 2 non-empty actions (thorough: <= 3 over a reduced action set), '
+              'helper or nest another such statement - with <= 2 non-empty actions (thorough: <= 3 over 6 forms and 4 actions, '
+              '8 761 statements in total), '
               'nesting <= 2 - is compiled and called both in a clean state and inside an active outer handler; the ordered log '
               'of executed blocks with sys.exc_info() at each, the propagated exception chain (__cause__/__context__/'
               '__suppress_context__/sub-exceptions recursively, types and args), the return value and sys.exc_info() after '
@@ -54,12 +56,21 @@ ACT_Q = {
     's': ('RA', 'RC', 'RF', 'RN', 'RR', 'H'),                                  # except* handler
 }
 ACT_T3 = {   # reduced action set for the 3-action tier
-    'b': ('RA', 'RC', 'RG', 'RR', 'RET'),
-    'h': ('RA', 'RF', 'RR', 'RET'),
-    'e': ('RA', 'RET'),
+    'b': ('RA', 'RC', 'RR', 'RET'),
+    'h': ('RA', 'RR', 'RET'),
+    'e': ('RA',),
     'f': ('RA', 'RR', 'RET'),
-    's': ('RA', 'RR'),
+    's': ('RA',),
 }
+FORMS_T3 = {'te', 'tee', 'tef', 'tf', 'ts', 'w10'}    # forms allowed (at both levels) in the 3-action tier
+
+
+def _forms_of(t):
+    out = {t[0]}
+    for x in t[1:]:
+        if isinstance(x, tuple):
+            out |= _forms_of(x)
+    return out
 FORMS = {
     'te': 'bh', 'tea': 'bh', 'te2': 'bhh', 'tee': 'bhe', 'tef': 'bhf', 'teef': 'bhef', 'tf': 'bf',
     'w00': 'b', 'w10': 'b', 'w01': 'b', 'w11': 'b', 'ts': 'bs', 'ts2': 'bss',
@@ -244,8 +255,9 @@ def _family(tier):
             seen.add(t)
             fam.append(t)
     if tier != 'quick':
+        # sized from the measured rate (quick: 5.7k statements in ~15 min at load 40): ~3k extra statements, ~8.8k in total
         for t in statements(3, 2, ACT_T3):
-            if t not in seen:
+            if t not in seen and _forms_of(t) <= FORMS_T3:
                 fam.append(t)
     return fam
 
